@@ -379,12 +379,15 @@ struct TypeRunner {
     return "ok " + hex(w.bytes) + " " + std::to_string(w.reported) + " " + join(w.pushed);
   }
 
+  // any_code: the input carries more than one injected defect (or is hostile), so that *which* error the
+  // implementation reports depends on the order of its checks, which the properties leave open: the model
+  // must reject too, the code is not compared
   void dec_lines(const std::string& rk, const std::vector<std::uint8_t>& bytes, const std::vector<long long>& handles,
-                 RResult* out = nullptr) {
+                 RResult* out = nullptr, bool any_code = false) {
     T dest{};
     RResult r = read_kind<P>(rk, bytes, dest, handles);
     c.line('M', "dec " + tid + " " + rk + " " + hex(bytes) + " - " + join(handles));
-    c.line('I', r.text);
+    c.line('I', (any_code && !r.ok && r.text.rfind("err ", 0) == 0) ? std::string("err *") : r.text);
     c.stat("dec_ops");
     if (out) *out = r;
   }
@@ -728,10 +731,15 @@ struct TypeRunner {
     }
     for (auto& m : mutations(w.bytes, c.thorough ? 256 : 5)) {
       const char* rks[] = {"buf", "ped"};
-      dec_lines(rks[rng.below(2)], m, handles);
+      // a single injected defect = one byte of a valid encoding changed; everything else (inflated lengths,
+      // insertions, deletions, random bytes) may break several rules at once
+      bool single = m.size() == w.bytes.size();
+      if (single) { std::size_t d = 0; for (std::size_t i = 0; i < m.size(); i++) d += m[i] != w.bytes[i]; single = d == 1; }
+      c.stat(single ? "single-defect mutants" : "multi-defect mutants");
+      dec_lines(rks[rng.below(2)], m, handles, nullptr, !single);
       if (rng.chance(30)) {
         std::size_t lim = rng.chance(50) ? m.size() : (rng.chance(50) ? w.bytes.size() : rng.below(m.size() + 3));
-        dec_lines("b:" + std::to_string(lim) + ":buf", m, handles);
+        dec_lines("b:" + std::to_string(lim) + ":buf", m, handles, nullptr, true);   // a budget is a second constraint
       }
       c.stat("mutants");
     }
@@ -752,7 +760,7 @@ struct TypeRunner {
       RResult r = read_kind<P>(rk, m, dest, w.pushed);
       a.active = false;
       c.line('M', "dec " + tid + " " + rk + " " + hex(m) + " - " + join(w.pushed));
-      c.line('I', r.text);
+      c.line('I', (!r.ok && r.text.rfind("err ", 0) == 0) ? std::string("err *") : r.text);   // C02 does not fix the code
       c.stat("hostile_inputs");
       if (a.over_limit || r.text.rfind("exc", 0) == 0)
         c.line('X', "C02 over-allocation type=" + tid + " reader=" + rk + " bytes=" + hex(m) + " requested=" + std::to_string(a.max_single) +
